@@ -7,7 +7,7 @@ for f in $V/seeded/redteam/*/*.diff; do
   n=$(basename $f .diff); d=$(basename $(dirname $f))
   grep -qx "$d/$n" $V/seeded/redteam/EXCLUDED 2>/dev/null && continue
   case $d in
-    RT1|RU1) fam="C07 C01 C03 C06";;
+    RT1|RU1) fam="C07 C01 C03 C06 C09";;
     RT2|RU2) fam="C08 C09 C10";;
     RT3|RU3) fam="C05 C04";;
     *) case $n in c11_*) fam="C11 C12";; c12_*) fam="C12 C11";; c18_*) fam="C18 C19";; c19_*) fam="C19";; c20_*) fam="C20";; *) fam="C11 C12 C18 C19 C20";; esac;;
